@@ -385,11 +385,11 @@ def run(chk: common.Check):
     # 1. corpus, every subset of the two pruning passes
     b.run(rng.sub("corpus"), [(f"corpus-{n}", c) for n, c in CORPUS], chk.tier, passes_list=(0, 1, 2, 3))
     # 2. random trees, no passes: full correspondence + oracle
-    n_rand = 260 if quick else 3000
+    n_rand = 240 if quick else 3000
     for k in range(0, n_rand, 200):
         b.run(rng.sub(f"rand{k}"), gen_cases(rng.sub(f"gen{k}"), min(200, n_rand - k)), chk.tier)
     # 3. random trees with every subset of passes (differential test of the unmodelled passes)
-    n_pass = 60 if quick else 600
+    n_pass = 50 if quick else 600
     for k in range(0, n_pass, 100):
         cs = [(f"pass-{k}-{i}", c) for i, (_, c) in enumerate(gen_cases(rng.sub(f"pgen{k}"), min(100, n_pass - k), only=("aligned", "unaligned")))]
         b.run(rng.sub(f"pass{k}"), cs, chk.tier, passes_list=(0, 1, 2, 3, 4, 7))
